@@ -83,31 +83,14 @@ fn k02_disambiguate_short_two_letters() {
     std::mem::forget(r);
 }
 
-/// K04: State::construct – 3 arguments, each one of `--`, `--k=v` (expands to two items) or `x`.
-/// From C09: "Everything after the first `--` is positional data ... and the separator itself is never delivered as a value";
-/// only the *first* `--` is the separator, whatever items precede it.
-#[kani::proof]
-#[kani::unwind(8)]
-fn k04_construct_double_dash_3args() {
-    let mut words: Vec<OsString> = Vec::with_capacity(3);
-    let mut kinds = [0u8; 3];
-    let mut i = 0;
-    while i < 3 {
-        let k: u8 = kani::any();
-        kani::assume(k < 3);
-        kinds[i] = k;
-        words.push(match k {
-            0 => OsString::from("--"),
-            1 => OsString::from("--k=v"),
-            _ => OsString::from("x"),
-        });
-        i += 1;
-    }
+/// K04: State::construct – the `--` rule of C09: "Everything after the first `--` is positional data ... and the separator itself
+/// is never delivered as a value"; only the *first* `--` is the separator, whatever items precede it.
+fn check_construct(words: Vec<OsString>, kinds: [u8; 3]) {
     let mut err = None;
     let st = State::construct(Args::from(&words[..]), &[], &[], &mut err);
     assert!(err.is_none());
-    // expected shape
-    let mut exp_pos = [false; 6];   // item is a PosWord
+    // expected shape: kind 0 = `--`, 1 = `--k=v` (two items), 2 = `x`
+    let mut exp_pos = [false; 6];
     let mut exp_parsed = [false; 6];
     let mut n = 0;
     let mut seen_dd = false;
@@ -144,8 +127,44 @@ fn k04_construct_double_dash_3args() {
         j += 1;
     }
     assert!(st.verif_remaining() == present);
-    kani::cover!(kinds[0] == 1 && kinds[1] == 0);
-    kani::cover!(kinds[0] == 0 && kinds[2] == 0);
     std::mem::forget(st);
     std::mem::forget(words);
+}
+
+fn word(k: u8) -> OsString {
+    match k {
+        0 => OsString::from("--"),
+        1 => OsString::from("--k=v"),
+        _ => OsString::from("x"),
+    }
+}
+
+/// three arguments, each `--` or `x` (8 command lines): a later `--` is data, not a second separator
+#[kani::proof]
+#[kani::unwind(8)]
+fn k04_construct_only_first_double_dash_counts() {
+    let mut kinds = [2u8; 3];
+    let mut words: Vec<OsString> = Vec::with_capacity(3);
+    let mut i = 0;
+    while i < 3 {
+        kinds[i] = if kani::any() { 0 } else { 2 };
+        words.push(word(kinds[i]));
+        i += 1;
+    }
+    kani::cover!(kinds[0] == 0 && kinds[2] == 0);
+    check_construct(words, kinds);
+}
+
+/// `--k=v` (one word, two items) followed by `--` or `x`, then `x`: the separator is marked by item index, not word index
+#[kani::proof]
+#[kani::unwind(8)]
+fn k04_construct_marker_after_two_item_word() {
+    let mut kinds = [1u8, 2, 2];
+    kinds[1] = if kani::any() { 0 } else { 2 };
+    let mut words: Vec<OsString> = Vec::with_capacity(3);
+    words.push(word(kinds[0]));
+    words.push(word(kinds[1]));
+    words.push(word(kinds[2]));
+    kani::cover!(kinds[1] == 0);
+    check_construct(words, kinds);
 }
